@@ -12,12 +12,21 @@ def summarise(t):
 def main():
     from sim.world import Task
     specs = json.load(sys.stdin)
+    if isinstance(specs, dict) and "threads" in specs:
+        from sim import threads
+        json.dump(threads.run(specs["specs"], specs["threads"], mean_gap=specs.get("gap", 40), concat=specs.get("concat")), sys.stdout)
+        return
     out = []
     for s in specs:
         s = dict(s, source="bytes")
         s.pop("cancel_at", None)
         out.append(summarise(Task(s).run()))
     json.dump(out, sys.stdout)
+
+
+def run_threads(specs, seed, gap=40, concat=None, timeout=180):
+    """the specs decoded concurrently in OS threads of a fresh interpreter under a seeded line-level schedule (sim/threads.py)"""
+    return run_fresh({"specs": specs, "threads": seed, "gap": gap, "concat": concat}, timeout=timeout)
 
 
 def run_fresh(specs, timeout=120, optimize=False):
